@@ -34,7 +34,7 @@ def same(got, ref, label, detail):
 @st.composite
 def gate_cases(draw, tier):
     kind = draw(st.sampled_from(["named", "rot", "rot2", "controlled",
-                                 "ketbra"]))
+                                 "ketbra", "custom"]))
     if kind == "named":
         g = draw(st.sampled_from(qspec.ONE_QUBIT + qspec.TWO_QUBIT))
         b = {"k": "g", "g": g}
@@ -44,6 +44,9 @@ def gate_cases(draw, tier):
     elif kind == "rot2":
         b = {"k": "g", "g": draw(st.sampled_from(qspec.ROT2)),
              "a": [draw(phases())]}
+    elif kind == "custom":
+        b = {"k": "g", "g": "Q", "a": [draw(st.integers(1, 2)),
+                                       draw(st.integers(0, 2))]}
     elif kind == "controlled":
         b = {"k": "g", "g": "C", "a": [draw(inner_gates())]}
     else:
@@ -116,6 +119,13 @@ def pure_circuits(draw, dom, max_boxes, max_width, unitary_only=False):
         b, off = draw(qspec.circuit_layer(scan, max_width, gateset="pure"))
         if b["k"] == "g" and b["g"] == "C":
             b = dict(b, a=[draw(inner_gates())])
+        elif b["k"] == "g" and b["g"] in qspec.TWO_QUBIT + qspec.ONE_QUBIT\
+                and draw(st.integers(0, 4)) == 0:
+            # a user-defined gate in place of a named one
+            b = {"k": "g", "g": "Q", "a": [len(specs.bdom(b)),
+                                           draw(st.integers(0, 2))]}
+            if draw(st.booleans()):
+                b["dag"] = True
         if unitary_only and b["k"] == "g" and b["g"] in (
                 "Ket", "Bra", "scalar", "sqrt"):
             continue
